@@ -136,6 +136,7 @@ def R3_search_siblings(run):
                     "array performs the same range check and returns None; all use shifted = !a_to_b; in_search_range / tick_offset / get_offset define one lookup")
     facts = run.facts
     ex = {r"\.ticks\[.*\]\.initialized =>": "fixed array tests ticks[i].initialized", r"^is_initialized_tick\(": "dynamic array tests bit i of the bitmap (C13.R2/R3 tie the bitmap to the slots)",
+          r"^(0 Eq )?\(\(1 Shl .*\) BitAnd .*tick_bitmap.*\)": "the same bit test with is_initialized_tick read in place (C13.R3 decides it)",
           r"^tick_bitmap\(self\)$": "bitmap read", r"^start_tick_index\(self\)$": "accessor vs field"}
     C12.compare_pair(run, "R3", FIXED + "::get_next_init_tick_index", DYN + "::get_next_init_tick_index", exempt=ex, norm_a={"field_map": {}}, norm_b={"method_fields": ["start_tick_index"]})
     for name, path in (("fixed", FIXED), ("dynamic", DYN), ("zeroed", ZERO)):
